@@ -26,7 +26,8 @@ func (eng) Rule() string {
 		"without vetoes to enumerate the negotiation-handler positions (binding, name) that fire, then once per position with " +
 		"that handler returning false, then with random veto subsets; (check) CanAdd/CanRemove followed by the same mutation " +
 		"under the same veto table; (early) disposed / backing-off / over-queue-limit machines; (enum) all schemas over 2 " +
-		"states x all single mutations handler-less. Each mutation is judged from the caller's side (Result, Time before/after) " +
+		"states x all pairs of mutations handler-less; (readers) 1-8 goroutines take single-call snapshots (Time, Clock, StringAll, String, " +
+		"Inspect, Export) while 1-3 goroutines mutate, every snapshot must be a vector of the recorded chain. Each mutation is judged from the caller's side (Result, Time before/after) " +
 		"and from its own transition located by a unique uid argument. Distinct non-trivial = distinct (schema, veto table, " +
 		"history prefix) in which at least one handler ran or a relation applied."
 }
@@ -59,6 +60,13 @@ func (eng) Cases(seed uint64, tier string) []core.CaseDesc {
 	}
 	for i := 0; i < 8; i++ {
 		cs = append(cs, core.CaseDesc{ID: fmt.Sprintf("enum/n2/%d", i), Kind: "enum", Seed: uint64(i)})
+	}
+	nrd := 150
+	if tier == "thorough" {
+		nrd = 4000
+	}
+	for i := 0; i < nrd; i++ {
+		cs = append(cs, mk(fmt.Sprintf("readers/%05d", i), "readers", seed*5000003+uint64(i)))
 	}
 	return cs
 }
@@ -319,6 +327,9 @@ func (eng) Run(c core.CaseDesc, tier string) *core.CaseResult {
 		}
 	case "early":
 		runEarly(res, c, rr)
+	case "readers":
+		// no observer sees a half-applied transition
+		seq.ReaderStress(res, c, "C03")
 	case "enum":
 		total := uint64(1) << gen.EnumBits(2, true)
 		lo, hi := c.Seed*total/8, (c.Seed+1)*total/8
